@@ -45,6 +45,7 @@ type Interp struct {
 	spec  *HarnessSpec
 	curIf *ssa.If
 	luts  map[*Term]*lutRec
+	ubs   map[*Term]uint64 // narrow.go: memo of syntactic upper bounds
 }
 
 func NewInterp(prog *ssa.Program, ex *Explorer) *Interp {
@@ -250,11 +251,16 @@ func (in *Interp) callFn(fn *ssa.Function, args []V, env []V, initCtx bool) V {
 		return r
 	}
 	if fn.Blocks == nil {
+		// Lazy SSA building. Taking ssaMu also waits for a build in progress on another worker: a generic instance
+		// (fn.Pkg == nil) created by that build gets its body only at the end of it, while functions of the same
+		// package that are already built may be running here.
+		ssaMu.Lock()
 		if fn.Pkg != nil {
-			ssaMu.Lock()
 			fn.Pkg.Build()
-			ssaMu.Unlock()
+		} else if o := fn.Origin(); o != nil && o.Pkg != nil {
+			o.Pkg.Build()
 		}
+		ssaMu.Unlock()
 		if fn.Blocks == nil {
 			if initCtx {
 				return zeroResult(fn)
@@ -909,6 +915,15 @@ func (in *Interp) intBinop(op token.Token, x, y Int) V {
 		if in.truth(isZero) {
 			panic(goPanic{Str{S: "integer divide by zero"}})
 		}
+		if !s {
+			o := "bvurem"
+			if op == token.QUO {
+				o = "bvudiv"
+			}
+			if nt := in.narrowUDiv(o, w, xt, yt); nt != nil {
+				return in.mkInt(nt, w, s)
+			}
+		}
 		if op == token.QUO {
 			if s {
 				return ar("bvsdiv")
@@ -967,6 +982,9 @@ func (in *Interp) eq(a, b V) Bool {
 		xb, yb := in.strBytes(x), in.strBytes(y)
 		if len(xb) != len(yb) {
 			return Bool{C: false}
+		}
+		if in.intMode {
+			return in.mkBool(in.eqByteSeqI(xb, yb))
 		}
 		acc := in.ts.True()
 		for i := range xb {
